@@ -125,7 +125,7 @@ pub fn files_event(bytes: &[u8], origin: &str, emitted: bool, cfg_paths: Option<
     ev
 }
 
-fn newc_entry(name: &str, mode: u32, data: &[u8], ino: u32) -> Vec<u8> {
+pub fn newc_entry(name: &str, mode: u32, data: &[u8], ino: u32) -> Vec<u8> {
     let mut h = format!("070701{:08x}{:08x}{:08x}{:08x}{:08x}{:08x}{:08x}{:08x}{:08x}{:08x}{:08x}{:08x}{:08x}",
                         ino, mode, 0, 0, 1, 0, data.len(), 0, 0, 0, 0, name.len() + 1, 0).into_bytes();
     h.extend_from_slice(name.as_bytes());
